@@ -9,7 +9,9 @@ package main
 
 import (
 	"bytes"
+	"context"
 	"fmt"
+	"net"
 	"go/ast"
 	"go/parser"
 	"go/token"
@@ -28,6 +30,7 @@ import (
 	"github.com/iDigitalFlame/xmt/com"
 	"github.com/iDigitalFlame/xmt/data"
 	"github.com/iDigitalFlame/xmt/device"
+	"github.com/iDigitalFlame/xmt/device/local"
 
 	"verifharness/vh"
 )
@@ -1683,6 +1686,199 @@ func doSync(srvM, cliM *msess, script, stop bool, es []sentry, class string) {
 	}
 }
 
+
+// ---------------------------------------------------------------- a full in-process migration
+
+type migRunnable struct{}
+
+func (migRunnable) Pid() uint32    { return uint32(os.Getpid()) }
+func (migRunnable) Start() error   { return nil }
+func (migRunnable) Release() error { return nil }
+
+func waitFor(d time.Duration, f func() bool) bool {
+	for e := time.Now().Add(d); time.Now().Before(e); time.Sleep(5 * time.Millisecond) {
+		if f() {
+			return true
+		}
+	}
+	return f()
+}
+
+type migSetup struct {
+	sleep   time.Duration
+	jitter  int
+	kill    time.Time
+	work    *cfg.WorkHours
+	proxy   bool
+	comment string
+}
+
+// doMigration: real Server + Listener (TCP loopback), real client (ConnectContext), settings changed on
+// the client, optionally a proxy attached; then Session.MigrateProfile on the old side and LoadContext
+// on the new side over the real local pipe.  The new process is emulated by giving local.UUID /
+// local.Device.ID another per-process half right before the hand-off.  Afterwards the migrated client and
+// the server's view (after the MvMigrate result) are compared with the old client.
+func doMigration(idx int, st migSetup) {
+	desc := map[string]interface{}{"history": []string{"ConnectContext (registration)", st.comment, "MigrateProfile(job) || LoadContext over the pipe", "server absorbs the MvMigrate result"}}
+	setupFail := func(what string) { stats["migration-not-run: "+what]++ }
+	z, err := net.Listen("tcp", "127.0.0.1:0")
+	if err != nil {
+		setupFail("no loopback port")
+		return
+	}
+	addr := z.Addr().String()
+	z.Close()
+	srv := c2.VerifC12NewServer()
+	defer srv.Close()
+	lis, err := srv.Listen(fmt.Sprintf("c12mig%d", idx), addr, cfg.Static{L: com.TCP})
+	if err != nil {
+		setupFail("listen")
+		return
+	}
+	defer lis.Close()
+	if !waitFor(10*time.Second, func() bool { return c2.VerifC12KeysReady(srv) }) {
+		setupFail("server keys")
+		return
+	}
+	time.Sleep(50 * time.Millisecond)
+	p, err := cfg.Build(cfg.Host(addr), cfg.ConnectTCP, cfg.Sleep(50*time.Millisecond), cfg.Jitter(0))
+	if err != nil {
+		setupFail("profile")
+		return
+	}
+	ctx, cancel := context.WithCancel(context.Background())
+	defer cancel()
+	old, err := c2.VerifC12Connect(ctx, p)
+	if err != nil {
+		setupFail("connect")
+		return
+	}
+	orig := old.ID
+	defer func() {
+		copy(local.UUID[:], orig[:])
+		copy(local.Device.ID[:], orig[:])
+	}()
+	var ss *c2.Session
+	if !waitFor(10*time.Second, func() bool { ss = srv.Session(orig); return ss != nil }) {
+		setupFail("registration")
+		return
+	}
+	time.Sleep(300 * time.Millisecond)
+	// the old client's settings and proxy at the time of the hand-off
+	old.SetDuration(st.sleep, st.jitter)
+	old.SetKillDate(st.kill)
+	if st.work != nil {
+		w := *st.work
+		old.SetWorkHours(&w)
+	}
+	if st.proxy {
+		pp, _ := cfg.Raw(proxyProfile(2 + idx))
+		if _, err = old.NewProxy("mig", "127.0.0.1:0", pp); err != nil {
+			setupFail("proxy")
+			return
+		}
+	}
+	time.Sleep(120 * time.Millisecond)
+	base := zeroSess(true)
+	oldM := observe(old, base)
+	if px := c2.VerifC12AttachedProxy(old); px != nil {
+		oldM.Proxy = &c2.VerifC12Proxy{Name: px.Name, Addr: px.Addr, Profile: px.Profile, Active: true}
+	}
+	srvB := zeroSess(false)
+	srvM := observe(ss, srvB)
+	jid := uint16(0x4D00 + idx)
+	job := c2.VerifC12TrackJob(ss, jid, task.MvMigrate)
+	// the new process has its own per-process half of the ID
+	var fresh device.ID
+	copy(fresh[:], orig[:])
+	for i := device.MachineIDSize + 1; i < device.IDSize; i++ {
+		fresh[i] = ^orig[i]
+	}
+	if fresh[device.MachineIDSize] ^= 0x40; fresh[device.MachineIDSize] == 0 {
+		fresh[device.MachineIDSize] = 1
+	}
+	copy(local.UUID[:], fresh[:])
+	copy(local.Device.ID[:], fresh[:])
+	pipeName := filepath.Join(os.TempDir(), fmt.Sprintf("c12mig-%d-%d-%d", os.Getpid(), idx, time.Now().UnixNano()))
+	defer os.Remove(pipeName + "." + fmt.Sprintf("%X", os.Getpid()))
+	type res struct {
+		s   *c2.Session
+		err error
+	}
+	ch := make(chan res, 1)
+	go func() {
+		defer func() {
+			if x := recover(); x != nil {
+				ch <- res{nil, fmt.Errorf("panic: %v", x)}
+			}
+		}()
+		s, err := c2.VerifC12LoadContext(ctx, pipeName, 30*time.Second)
+		ch <- res{s, err}
+	}()
+	desc["old_client"] = oldM.desc()
+	desc["new_process_id_tail"] = intsOf(fresh[device.MachineIDSize:])
+	desc["migrated_id_tail"] = intsOf(orig[device.MachineIDSize:])
+	if _, err = old.MigrateProfile(false, pipeName, nil, jid, 30*time.Second, migRunnable{}); err != nil {
+		desc["error"] = err.Error()
+		fail("the migration hand-off failed on the old side: "+err.Error(), "migrate-handoff-old", desc)
+		return
+	}
+	var ns *c2.Session
+	select {
+	case r := <-ch:
+		if r.err != nil {
+			desc["error"] = r.err.Error()
+			fail("the migration hand-off failed on the new side (LoadContext): "+r.err.Error(), "migrate-handoff-new", desc)
+			return
+		}
+		ns = r.s
+	case <-time.After(40 * time.Second):
+		fail("LoadContext did not return", "migrate-handoff-timeout", desc)
+		return
+	}
+	defer ns.Close()
+	if !waitFor(20*time.Second, func() bool { return job.IsDone() }) {
+		fail("the server never completed the MvMigrate job", "migrate-result-missing", desc)
+		return
+	}
+	nsM := observe(ns, base)
+	srvA := observe(ss, srvB)
+	var pds []c2.VerifC12PD
+	if px := c2.VerifC12AttachedProxy(ns); px != nil {
+		pds = []c2.VerifC12PD{*px}
+	} else {
+		pds = []c2.VerifC12PD{}
+	}
+	desc["new_client"], desc["server_view_after"] = nsM.desc(), srvA.desc()
+	desc["new_client_ids"] = map[string]interface{}{"session_id_tail": intsOf(nsM.ID[device.MachineIDSize:]), "device_id_tail": intsOf(nsM.DevID[device.MachineIDSize:])}
+	desc["server_ids"] = map[string]interface{}{"session_id_tail": intsOf(srvA.ID[device.MachineIDSize:]), "device_id_tail": intsOf(srvA.DevID[device.MachineIDSize:])}
+	out.Add(fmt.Sprintf("CMigrate %s %s %s %s (Ok (%s, %s, %s))", oldM.term(), base.term(), machTerm(nsM), srvM.term(), nsM.term(), pdTerm(pds), srvA.term()),
+		"migration-in-process", true, desc)
+	// oracle: identity, key material, settings and proxy list survive; the server's view equals the migrated client's
+	var o [32]byte
+	copy(o[:], orig[:])
+	switch {
+	case nsM.ID != o:
+		fail("after the migration the new client's Session.ID is not the migrated ID", "migrate-identity-client-ID", desc)
+	case nsM.DevID != o:
+		fail("after the migration the new client's Device.ID is not the migrated ID", "migrate-identity-client-Device.ID", desc)
+	case srvA.ID != o:
+		fail("after the migration the server's Session.ID is not the migrated ID", "migrate-identity-server-ID", desc)
+	case srvA.DevID != o:
+		fail("after the migration the server's view of Device.ID is not the migrated ID", "migrate-identity-server-Device.ID", desc)
+	case nsM.Pub != oldM.Pub || nsM.Priv != oldM.Priv || nsM.Share != oldM.Share:
+		fail("after the migration the new client's key material differs from the old client's", "migrate-keys", desc)
+	case nsM.Jitter != oldM.Jitter || nsM.Sleep != oldM.Sleep || !killMatches(oldM.Kill, nsM.Kill) || !workMatches(oldM.Work, nsM.Work):
+		fail("after the migration the new client's sleep/jitter/kill date/work hours differ from the old client's", "migrate-settings-client", desc)
+	case srvA.Jitter != nsM.Jitter || srvA.Sleep != nsM.Sleep || !killMatches(nsM.Kill, srvA.Kill) || !workMatches(nsM.Work, srvA.Work):
+		fail("after the migration the server's view of the settings differs from the new client's", "migrate-settings-server", desc)
+	case !sameDevice(srvA, nsM):
+		fail("after the migration the server's device details differ from the new client's", "migrate-device-server", desc)
+	case !pdEqual(expectProxies(kMigrate, oldM), pds):
+		fail("after the migration the new client's proxy differs from the old client's (name / bind address / profile)", "migrate-proxy", desc)
+	}
+}
+
 // ---------------------------------------------------------------- generators
 
 var (
@@ -2197,6 +2393,28 @@ func main() {
 			}
 			srv, cli := mk()
 			doSync(srv, cli, true, rng.Intn(3) == 0, es, "random")
+		}
+	}
+
+	// ---- full in-process migrations (real server, listener, client, pipe)
+	{
+		now := time.Now()
+		var wh *cfg.WorkHours
+		if now.Hour() < 23 {
+			wh = &cfg.WorkHours{Days: 127, EndHour: 23, EndMin: 59}
+		}
+		sets := []migSetup{
+			{sleep: 70 * time.Millisecond, jitter: 7, kill: time.Unix(now.Unix()+86400*400, 0), comment: "client: SetDuration(70ms, 7), SetKillDate(now+400d)"},
+			{sleep: 45 * time.Millisecond, jitter: 0, proxy: true, work: wh, comment: "client: SetDuration(45ms, 0), SetWorkHours(all days 00:00-23:59), NewProxy(mig, 127.0.0.1:0, P)"},
+		}
+		if thorough {
+			for i := 0; i < 8; i++ {
+				sets = append(sets, migSetup{sleep: time.Duration(40+rng.Intn(50)) * time.Millisecond, jitter: rng.Intn(30), proxy: rng.Bool(),
+					kill: time.Unix(now.Unix()+int64(rng.Intn(1<<30))+3600, 0), comment: "client: random settings"})
+			}
+		}
+		for i, st := range sets {
+			doMigration(i, st)
 		}
 	}
 
